@@ -116,7 +116,7 @@ def warm_up(corpus_dir):
         raise RuntimeError("zygote warm-up touched blackbird module state: %r" %
                            [k for k in after if before.get(k) != after[k]])
     # everything allocated so far is permanent: a child's collector only ever looks at what
-    # the child itself allocates, so that its timing is a function of the plan alone
+    # the child itself allocates (cheaper collections in every fork)
     import gc
     gc.collect()
     gc.freeze()
